@@ -389,7 +389,7 @@ def run_sys_job(ck, binary, job, tag, inject=None, timeout=60):
     if pv.returncode != 0 or not os.path.exists(outp):
         raise vkit.Infra("verifier failed for %s: rc=%d %s" % (tag, pv.returncode, pv.stderr[-2000:]))
     v = json.load(open(outp))
-    ev.append({"ev": "verify", "before": v["before"], "after": v["after"], "cleanup": v["cleanup"]})
+    ev.append({"ev": "verify", "before": v["before"], "retry": v["retry"], "after": v["after"], "cleanup": v["cleanup"]})
     init = {"ev": "Init", "n": job["n"], "szlim": job["cfg"]["szlim"], "cnt": job["cfg"]["cnt"], "tag": tag,
             "inject": (inject if isinstance(inject, str) else "+".join(inject or [])), "writer": job["cfg"]["writer"]}
     import shutil
